@@ -1,5 +1,929 @@
+(* Lemmas about Disc/ResourceCountModel.v (C46). *)
 From Coq Require Import List ZArith Bool Lia.
 From PLV Require Import Disc.ResourceCountModel.
 Import ListNotations.
 Open Scope Z_scope.
-Lemma stub_true : True. Proof. exact I. Qed.
+
+(* ================================================================== counting *)
+Lemma ckeyb_eq a b : ckeyb a b = true <-> a = b.
+Proof.
+  destruct a as [[a1 a2] a3], b as [[b1 b2] b3]; cbn.
+  rewrite !andb_true_iff, !Z.eqb_eq. split.
+  - intros [[-> ->] ->]; reflexivity.
+  - intros H; inversion H; auto.
+Qed.
+Lemma ckeyb_refl a : ckeyb a a = true.
+Proof. apply ckeyb_eq; reflexivity. Qed.
+
+Lemma ctotal_cons p l : ctotal (p :: l) = snd p + ctotal l.
+Proof. reflexivity. Qed.
+
+Lemma ctotal_bump k l : ctotal (bump k l) = ctotal l + 1.
+Proof.
+  induction l as [|[k' v] r IH]; cbn [bump].
+  - rewrite ctotal_cons; cbn; lia.
+  - destruct (ckeyb k' k); rewrite !ctotal_cons; cbn [snd]; [lia | rewrite IH; lia].
+Qed.
+
+Lemma ctotal_fold {A} (f : A -> ckey) l : forall acc,
+  ctotal (fold_left (fun acc x => bump (f x) acc) l acc) = ctotal acc + Z.of_nat (length l).
+Proof.
+  induction l as [|x l IH]; intros acc; cbn [fold_left length].
+  - lia.
+  - rewrite IH, ctotal_bump. lia.
+Qed.
+
+Lemma count_total {A} (f : A -> ckey) l : ctotal (count_by f l) = Z.of_nat (length l).
+Proof. unfold count_by. rewrite ctotal_fold. reflexivity. Qed.
+
+Lemma cget_bump k k' l : cget k (bump k' l) = cget k l + (if ckeyb k' k then 1 else 0).
+Proof.
+  induction l as [|[k0 v] r IH]; cbn [bump cget].
+  - destruct (ckeyb k' k); lia.
+  - destruct (ckeyb k0 k') eqn:E; cbn [cget].
+    + apply ckeyb_eq in E; subst k0. destruct (ckeyb k' k); lia.
+    + destruct (ckeyb k0 k) eqn:E2.
+      * destruct (ckeyb k' k) eqn:E3; [|lia].
+        apply ckeyb_eq in E3, E2; subst. rewrite ckeyb_refl in E; discriminate.
+      * apply IH.
+Qed.
+
+Lemma cget_fold {A} (f : A -> ckey) k l : forall acc,
+  cget k (fold_left (fun acc x => bump (f x) acc) l acc) =
+  cget k acc + Z.of_nat (length (filter (fun x => ckeyb (f x) k) l)).
+Proof.
+  induction l as [|x l IH]; intros acc; cbn [fold_left filter].
+  - cbn; lia.
+  - rewrite IH, cget_bump. destruct (ckeyb (f x) k); cbn [length]; lia.
+Qed.
+
+Lemma count_occ_spec {A} (f : A -> ckey) k l :
+  cget k (count_by f l) = Z.of_nat (length (filter (fun x => ckeyb (f x) k) l)).
+Proof. unfold count_by; rewrite cget_fold; reflexivity. Qed.
+
+Lemma bump_keys k l x : In x (map fst (bump k l)) <-> x = k \/ In x (map fst l).
+Proof.
+  induction l as [|[k0 v] r IH]; cbn [bump map fst In].
+  - intuition.
+  - destruct (ckeyb k0 k) eqn:E; cbn [map fst In].
+    + apply ckeyb_eq in E; subst. intuition.
+    + rewrite IH. intuition.
+Qed.
+
+Lemma bump_nodup k l : NoDup (map fst l) -> NoDup (map fst (bump k l)).
+Proof.
+  induction l as [|[k0 v] r IH]; cbn [bump map fst]; intros H.
+  - constructor; [intros []|constructor].
+  - inversion H as [|? ? Hn Hr]; subst. destruct (ckeyb k0 k) eqn:E; cbn [map fst].
+    + constructor; auto.
+    + constructor; [|auto]. rewrite bump_keys. intros [->|Hin]; [|auto].
+      rewrite ckeyb_refl in E; discriminate.
+Qed.
+
+Lemma count_keys_nodup {A} (f : A -> ckey) l : NoDup (map fst (count_by f l)).
+Proof.
+  unfold count_by.
+  assert (G : forall acc, NoDup (map fst acc) ->
+              NoDup (map fst (fold_left (fun acc x => bump (f x) acc) l acc))).
+  { induction l as [|x l IH]; intros acc Ha; cbn [fold_left]; auto. apply IH, bump_nodup, Ha. }
+  apply G; constructor.
+Qed.
+
+(* a key is reported iff some element has it *)
+Lemma count_keys_spec {A} (f : A -> ckey) l k :
+  In k (map fst (count_by f l)) <-> exists x, In x l /\ f x = k.
+Proof.
+  unfold count_by.
+  assert (G : forall acc, In k (map fst (fold_left (fun acc x => bump (f x) acc) l acc)) <->
+                          In k (map fst acc) \/ exists x, In x l /\ f x = k).
+  { induction l as [|x l IH]; intros acc; cbn [fold_left].
+    - split; [auto|]. intros [H|[x [[] _]]]; auto.
+    - rewrite IH, bump_keys. split.
+      + intros [[->|H]|[y [Hy He]]]; [right; exists x; split; [left|]; auto | auto | right; exists y; split; [right|]; auto].
+      + intros [H|[y [[->|Hy] He]]]; [auto | left; left; auto | right; exists y; auto]. }
+  rewrite G. cbn. intuition.
+Qed.
+
+(* ================================================================== wires *)
+Lemma memZ_In x l : memZ x l = true <-> In x l.
+Proof.
+  induction l as [|y r IH]; cbn [memZ In]; [split; [discriminate|tauto]|].
+  rewrite orb_true_iff, Z.eqb_eq, IH. intuition.
+Qed.
+
+Lemma dedup_acc_In x l : forall seen, In x (dedup_acc seen l) <-> In x l /\ ~ In x seen.
+Proof.
+  induction l as [|y r IH]; intros seen; cbn [dedup_acc In]; [tauto|].
+  destruct (memZ y seen) eqn:E.
+  - apply memZ_In in E. rewrite IH. split; [tauto|]. intros [[->|H] Hn]; tauto.
+  - assert (Hy : ~ In y seen) by (intros H; apply memZ_In in H; congruence).
+    cbn [In]. rewrite IH. cbn [In]. split.
+    + intros [->|[H Hn]]; [tauto|]. split; [tauto|]. intros H2; apply Hn; auto.
+    + intros [[->|H] Hn]; [auto|]. destruct (Z.eq_dec y x) as [->|Hne]; [auto|].
+      right; split; auto. intros [?|?]; auto.
+Qed.
+
+Lemma dedup_acc_NoDup l : forall seen, NoDup (dedup_acc seen l).
+Proof.
+  induction l as [|y r IH]; intros seen; cbn [dedup_acc]; [constructor|].
+  destruct (memZ y seen); [apply IH|]. constructor; [|apply IH].
+  rewrite dedup_acc_In. intros [_ H]; apply H; left; reflexivity.
+Qed.
+
+Lemma dedup_In x l : In x (dedup l) <-> In x l.
+Proof. unfold dedup; rewrite dedup_acc_In; cbn; tauto. Qed.
+Lemma dedup_NoDup l : NoDup (dedup l).
+Proof. apply dedup_acc_NoDup. Qed.
+
+Lemma all_wires_spec c w :
+  In w (all_wires c) <-> (exists g, In g (ops c) /\ In w (gwires g)) \/ (exists m, In m (meass c) /\ In w (mwires m)).
+Proof. unfold all_wires. rewrite dedup_In, in_app_iff, !in_flat_map. tauto. Qed.
+
+Lemma all_wires_nodup c : NoDup (all_wires c).
+Proof. apply dedup_NoDup. Qed.
+
+Lemma num_params_set c l : trainable c = Some l ->
+  exists d, NoDup d /\ (forall x, In x d <-> In x l) /\ num_params c = Z.of_nat (length d).
+Proof.
+  intros H. exists (dedup l). unfold num_params; rewrite H.
+  split; [apply dedup_NoDup|]. split; [intros x; apply dedup_In | reflexivity].
+Qed.
+
+(* ================================================================== depth: generic level recursion *)
+Lemma keyb_eq a b : keyb a b = true <-> a = b.
+Proof.
+  destruct a as [a1 a2], b as [b1 b2]; unfold keyb; cbn [fst snd].
+  rewrite andb_true_iff, !Z.eqb_eq. split; [intros [-> ->]; reflexivity | intros H; inversion H; auto].
+Qed.
+
+Lemma existsb_keyb ws k : existsb (fun k' => keyb k' k) ws = true <-> In k ws.
+Proof.
+  rewrite existsb_exists. split.
+  - intros [x [Hx He]]. apply keyb_eq in He; subst; auto.
+  - intros H; exists k; split; auto. apply keyb_eq; reflexivity.
+Qed.
+
+Lemma flook_push ws v F k :
+  flook (push ws v F) k = if existsb (fun k' => keyb k' k) ws then Some v else flook F k.
+Proof.
+  unfold push. induction ws as [|a ws IH]; cbn [map app existsb flook]; [reflexivity|].
+  destruct (keyb a k); cbn [orb]; auto.
+Qed.
+
+Lemma flook_push_in ws v F k : In k ws -> flook (push ws v F) k = Some v.
+Proof. intros H. rewrite flook_push. apply existsb_keyb in H. rewrite H; reflexivity. Qed.
+Lemma flook_push_notin ws v F k : ~ In k ws -> flook (push ws v F) k = flook F k.
+Proof.
+  intros H. rewrite flook_push. destruct (existsb _ ws) eqn:E; [|reflexivity].
+  apply existsb_keyb in E; contradiction.
+Qed.
+
+Lemma maxl_cons a l : maxl (a :: l) = Z.max a (maxl l).
+Proof. reflexivity. Qed.
+Lemma maxl_nonneg l : 0 <= maxl l.
+Proof. induction l; [cbn; lia | rewrite maxl_cons; lia]. Qed.
+Lemma maxl_ge x l : In x l -> x <= maxl l.
+Proof. induction l as [|a l IH]; intros []; rewrite maxl_cons; [subst; lia | specialize (IH H); lia]. Qed.
+Lemma maxl_le l B : 0 <= B -> (forall x, In x l -> x <= B) -> maxl l <= B.
+Proof.
+  intros HB. induction l as [|a l IH]; intros H; [cbn; lia|]. rewrite maxl_cons.
+  assert (a <= B) by (apply H; left; auto). assert (maxl l <= B) by (apply IH; intros; apply H; right; auto). lia.
+Qed.
+Lemma maxl_in l : l <> [] -> (forall x, In x l -> 0 <= x) -> In (maxl l) l.
+Proof.
+  induction l as [|a l IH]; [congruence|]. intros _ H. rewrite maxl_cons.
+  destruct l as [|b r].
+  - cbn. left. assert (0 <= a) by (apply H; left; auto). lia.
+  - assert (I1 : In (maxl (b :: r)) (b :: r)) by (apply IH; [congruence | intros; apply H; right; auto]).
+    destruct (Z.max_spec a (maxl (b :: r))) as [[_ ->]|[_ ->]]; [right; exact I1 | left; reflexivity].
+Qed.
+
+Lemma preds_In F n v : In v (preds F n) <-> exists k, In k (uses n) /\ flook F k = Some v.
+Proof.
+  unfold preds. rewrite in_flat_map. split.
+  - intros [k [Hk Hv]]. exists k; split; auto. destruct (flook F k); cbn in Hv; [destruct Hv as [->|[]]; auto | contradiction].
+  - intros [k [Hk Hv]]. exists k; split; auto. rewrite Hv; left; auto.
+Qed.
+
+Lemma level_nonneg F n : 0 <= level F n.
+Proof. unfold level. destruct (preds F n); [lia|]. pose proof (maxl_nonneg (z :: l)). lia. Qed.
+Lemma level_ge F n v : In v (preds F n) -> 1 + v <= level F n.
+Proof. unfold level. intros H. destruct (preds F n) eqn:E; [contradiction|]. apply maxl_ge in H. lia. Qed.
+Lemma level_cases F n : (forall v, In v (preds F n) -> 0 <= v) ->
+  (preds F n = [] /\ level F n = 0) \/ (exists v, In v (preds F n) /\ level F n = 1 + v).
+Proof.
+  intros H. unfold level. destruct (preds F n) eqn:E; [left; auto|]. right.
+  exists (maxl (z :: l)). split; [|reflexivity]. apply maxl_in; [congruence | exact H].
+Qed.
+Lemma level_le F n B : 0 <= B -> (forall k v, flook F k = Some v -> v <= B) -> level F n <= 1 + B.
+Proof.
+  intros HB H. unfold level. destruct (preds F n) eqn:E; [lia|].
+  assert (maxl (z :: l) <= B); [|lia]. apply maxl_le; auto.
+  intros x Hx. rewrite <- E in Hx. apply preds_In in Hx. destruct Hx as [k [_ Hk]]. eauto.
+Qed.
+
+(* ---- subsequences and chains ---- *)
+Inductive subseq {A : Type} : list A -> list A -> Prop :=
+| ss_nil l : subseq [] l
+| ss_skip s x l : subseq s l -> subseq s (x :: l)
+| ss_take s x l : subseq s l -> subseq (x :: s) (x :: l).
+
+Fixpoint chain_rel {A : Type} (R : A -> A -> Prop) (s : list A) : Prop :=
+  match s with
+  | a :: ((b :: _) as r) => R a b /\ chain_rel R r
+  | _ => True
+  end.
+Definition flipR {A : Type} (R : A -> A -> Prop) : A -> A -> Prop := fun a b => R b a.
+
+(* b can only run after a: a writes a key (wire / mid-measure outcome) that b uses *)
+Definition linked (a b : node) : Prop := exists k, In k (writes a) /\ In k (uses b).
+Definition rlinked := flipR linked.
+
+Lemma subseq_app_l {A} (s l l' : list A) : subseq s l' -> subseq s (l ++ l').
+Proof. induction l; cbn; auto using ss_skip. Qed.
+Lemma subseq_app {A} (s l : list A) : subseq s l -> forall s' l', subseq s' l' -> subseq (s ++ s') (l ++ l').
+Proof.
+  induction 1; intros s' l' H'; cbn [app].
+  - apply subseq_app_l; auto.
+  - apply ss_skip; auto.
+  - apply ss_take; auto.
+Qed.
+Lemma subseq_rev {A} (s l : list A) : subseq s l -> subseq (rev s) (rev l).
+Proof.
+  induction 1; cbn [rev].
+  - apply ss_nil.
+  - rewrite <- (app_nil_r (rev s)). apply subseq_app; [auto | apply ss_nil].
+  - apply subseq_app; [auto | apply ss_take, ss_nil].
+Qed.
+Lemma subseq_In {A} (s l : list A) : subseq s l -> forall x, In x s -> In x l.
+Proof. induction 1; intros y Hy; [destruct Hy | right; auto | destruct Hy; [left; auto | right; auto]]. Qed.
+Lemma subseq_tail {A} (x : A) s l : subseq (x :: s) l -> subseq s l.
+Proof.
+  remember (x :: s) as t eqn:E. intros H; revert x s E.
+  induction H; intros y s0 E; [discriminate | apply ss_skip; eauto | inversion E; subst; apply ss_skip; auto].
+Qed.
+Lemma subseq_map {A B} (f : A -> B) s l : subseq s l -> subseq (map f s) (map f l).
+Proof. induction 1; cbn [map]; [apply ss_nil | apply ss_skip; auto | apply ss_take; auto]. Qed.
+Lemma subseq_map_inv {A B} (f : A -> B) l : forall t, subseq t (map f l) -> exists s, t = map f s /\ subseq s l.
+Proof.
+  induction l as [|a l IH]; intros t H; cbn [map] in H; inversion H; subst.
+  - exists []; split; [reflexivity | apply ss_nil].
+  - exists []; split; [reflexivity | apply ss_nil].
+  - destruct (IH _ H2) as [s1 [-> Hs]]. exists s1; split; [reflexivity | apply ss_skip; auto].
+  - destruct (IH _ H2) as [s1 [-> Hs]]. exists (a :: s1); split; [reflexivity | apply ss_take; auto].
+Qed.
+Lemma subseq_cons_inv {A} (a x : A) s l : subseq (a :: s) (x :: l) -> subseq (a :: s) l \/ (a = x /\ subseq s l).
+Proof. intros H; inversion H; subst; auto. Qed.
+Lemma subseq_length {A} (s l : list A) : subseq s l -> (length s <= length l)%nat.
+Proof. induction 1; cbn [length]; lia. Qed.
+
+Lemma chain_rel_tail {A} (R : A -> A -> Prop) a s : chain_rel R (a :: s) -> chain_rel R s.
+Proof. destruct s; cbn; tauto. Qed.
+Lemma chain_rel_ext {A} (R R' : A -> A -> Prop) s : (forall a b, R a b -> R' a b) -> chain_rel R s -> chain_rel R' s.
+Proof.
+  intros H. induction s as [|a s IH]; [auto|]. destruct s as [|b r]; [auto|].
+  intros [H1 H2]; split; auto.
+Qed.
+Lemma chain_rel_app {A} (R : A -> A -> Prop) s1 : forall s2 a b,
+  chain_rel R (s1 ++ [a]) -> chain_rel R (b :: s2) -> R a b -> chain_rel R (s1 ++ a :: b :: s2).
+Proof.
+  induction s1 as [|x s1 IH]; intros s2 a b H1 H2 H; cbn [app] in *.
+  - split; auto.
+  - destruct s1 as [|y s1']; cbn [app] in *.
+    + destruct H1 as [H1 _]. split; [auto|split; auto].
+    + destruct H1 as [H1 H1']. split; [auto|]. apply (IH s2 a b); auto.
+Qed.
+Lemma chain_rel_rev {A} (R : A -> A -> Prop) s : chain_rel R s -> chain_rel (flipR R) (rev s).
+Proof.
+  induction s as [|a s IH]; [auto|]. intros H. cbn [rev].
+  destruct s as [|b s']; [cbn; auto|].
+  destruct H as [H1 H2]. specialize (IH H2). cbn [rev] in *.
+  rewrite <- app_assoc. cbn [app]. apply chain_rel_app; [exact IH | cbn; auto | exact H1].
+Qed.
+Lemma chain_rel_map {A B} (f : A -> B) (R : B -> B -> Prop) s :
+  chain_rel R (map f s) <-> chain_rel (fun a b => R (f a) (f b)) s.
+Proof.
+  induction s as [|a s IH]; [cbn; tauto|]. destruct s as [|b r]; [cbn; tauto|].
+  cbn [map] in *. cbn [chain_rel]. rewrite <- IH. tauto.
+Qed.
+
+(* ---- the invariant: frontier values = longest chains ending at a writer of the key ---- *)
+Record Inv (P : list node) (F : front) (acc : Z) : Prop := mkInv {
+  invA : forall k v, flook F k = Some v ->
+         exists a s, subseq (a :: s) P /\ chain_rel rlinked (a :: s) /\ In k (writes a) /\ Z.of_nat (length s) = v;
+  invB : forall a s k, subseq (a :: s) P -> chain_rel rlinked (a :: s) -> In k (writes a) ->
+         exists v, flook F k = Some v /\ Z.of_nat (length s) <= v;
+  invC : forall a s, subseq (a :: s) P -> chain_rel rlinked (a :: s) -> Z.of_nat (length s) <= acc;
+  invD : 0 <= acc /\ (acc = 0 \/ exists a s, subseq (a :: s) P /\ chain_rel rlinked (a :: s) /\ Z.of_nat (length s) = acc)
+}.
+
+Lemma Inv_init : Inv [] [] 0.
+Proof.
+  constructor.
+  - cbn; discriminate.
+  - intros a s k H; inversion H.
+  - intros a s H; inversion H.
+  - split; [lia | left; reflexivity].
+Qed.
+
+Lemma preds_nonneg P F acc n : Inv P F acc -> forall v, In v (preds F n) -> 0 <= v.
+Proof.
+  intros I v Hv. apply preds_In in Hv. destruct Hv as [k [_ Hk]].
+  destruct (invA _ _ _ I _ _ Hk) as [a [s [_ [_ [_ <-]]]]]. lia.
+Qed.
+
+Lemma L1 P F acc n s : Inv P F acc -> subseq s P -> chain_rel rlinked (n :: s) ->
+  Z.of_nat (length s) <= level F n.
+Proof.
+  intros I Hs Hc. destruct s as [|b s'].
+  - cbn. apply level_nonneg.
+  - destruct Hc as [[k [Hw Hu]] Hc].
+    destruct (invB _ _ _ I b s' k Hs Hc Hw) as [v0 [Hf Hle]].
+    assert (Hp : In v0 (preds F n)) by (apply preds_In; exists k; auto).
+    apply level_ge in Hp. cbn [length]. lia.
+Qed.
+
+Lemma L2 P F acc n : Inv P F acc ->
+  exists s, subseq s P /\ chain_rel rlinked (n :: s) /\ Z.of_nat (length s) = level F n.
+Proof.
+  intros I. destruct (level_cases F n (preds_nonneg _ _ _ n I)) as [[_ ->]|[v0 [Hp ->]]].
+  - exists []; split; [apply ss_nil | split; [cbn; auto | reflexivity]].
+  - apply preds_In in Hp. destruct Hp as [k [Hu Hf]].
+    destruct (invA _ _ _ I _ _ Hf) as [a [s0 [Hs [Hc [Hw Hl]]]]].
+    exists (a :: s0). split; [auto|]. split.
+    + split; [exists k; auto | auto].
+    + cbn [length]. lia.
+Qed.
+
+Definition wfn (F : front) (n : node) : Prop :=
+  forall k, In k (writes n) -> In k (uses n) \/ flook F k = None.
+
+Lemma Inv_step P F acc n : Inv P F acc -> wfn F n ->
+  Inv (n :: P) (push (writes n) (level F n) F) (Z.max acc (level F n)).
+Proof.
+  intros I W. pose proof (L1 P F acc n) as l1. destruct (L2 P F acc n I) as [s2 [Hs2 [Hc2 Hl2]]].
+  constructor.
+  - (* A *) intros k v Hk. rewrite flook_push in Hk.
+    destruct (existsb (fun k' => keyb k' k) (writes n)) eqn:E.
+    + inversion Hk; subst v. apply existsb_keyb in E.
+      exists n, s2. split; [apply ss_take; auto | auto].
+    + destruct (invA _ _ _ I _ _ Hk) as [a [s [Hs [Hc [Hw Hl]]]]].
+      exists a, s. split; [apply ss_skip; auto | auto].
+  - (* B *) intros a s k Hs Hc Hw. apply subseq_cons_inv in Hs. destruct Hs as [H1|[-> H1]].
+    + destruct (invB _ _ _ I a s k H1 Hc Hw) as [v0 [Hf Hle]].
+      assert (Hdec : In k (writes n) \/ ~ In k (writes n)).
+      { destruct (existsb (fun k' => keyb k' k) (writes n)) eqn:E.
+        - left; apply existsb_keyb; auto.
+        - right; intros Hin; apply existsb_keyb in Hin; congruence. }
+      destruct Hdec as [Hin|Hnin].
+      * exists (level F n). split; [apply flook_push_in; auto|].
+        destruct (W k Hin) as [Hu|Hnone]; [|congruence].
+        assert (Hp : In v0 (preds F n)) by (apply preds_In; exists k; auto).
+        apply level_ge in Hp. lia.
+      * exists v0. split; [rewrite flook_push_notin; auto | auto].
+    + exists (level F n). split; [apply flook_push_in; auto|]. apply (l1 s I H1 Hc).
+  - (* C *) intros a s Hs Hc. apply subseq_cons_inv in Hs. destruct Hs as [H1|[-> H1]].
+    + pose proof (invC _ _ _ I a s H1 Hc). lia.
+    + pose proof (l1 s I H1 Hc). lia.
+  - (* D *) destruct (invD _ _ _ I) as [H0 HD]. split; [lia|].
+    destruct (Z.max_spec acc (level F n)) as [[_ ->]|[_ ->]].
+    + right. exists n, s2. split; [apply ss_take; auto | auto].
+    + destruct HD as [->|[a [s [Hs [Hc Hl]]]]]; [left; reflexivity|].
+      right. exists a, s. split; [apply ss_skip; auto | auto].
+Qed.
+
+Fixpoint wf_run (F : front) (q : list node) : Prop :=
+  match q with
+  | [] => True
+  | n :: r => wfn F n /\ wf_run (push (writes n) (level F n) F) r
+  end.
+
+Lemma run_inv q : forall P F acc, Inv P F acc -> wf_run F q ->
+  Inv (rev q ++ P) (fst (run_st F acc q)) (snd (run_st F acc q)).
+Proof.
+  induction q as [|n r IH]; intros P F acc I W; cbn [run_st rev app fst snd]; [exact I|].
+  destruct W as [W1 W2]. rewrite <- app_assoc. cbn [app].
+  apply IH; [apply Inv_step; auto | exact W2].
+Qed.
+
+Lemma depth_nodes_nonneg q : 0 <= depth_nodes q.
+Proof.
+  unfold depth_nodes, run. assert (G : forall F acc, 0 <= acc -> 0 <= snd (run_st F acc q)).
+  { induction q as [|n r IH]; intros F acc H; cbn [run_st snd]; [auto|]. apply IH. lia. }
+  apply G; lia.
+Qed.
+
+(* generic theorem, forward chains *)
+Theorem depth_nodes_ge_chain q t : wf_run [] q -> subseq t q -> chain_rel linked t -> t <> [] ->
+  Z.of_nat (length t) - 1 <= depth_nodes q.
+Proof.
+  intros W Hs Hc Hne.
+  pose proof (run_inv q [] [] 0 Inv_init W) as I. rewrite app_nil_r in I.
+  apply subseq_rev in Hs. apply chain_rel_rev in Hc.
+  destruct (rev t) as [|a s] eqn:E.
+  { apply (f_equal (@length _)) in E. rewrite rev_length in E. destruct t; [congruence | discriminate]. }
+  pose proof (invC _ _ _ I a s Hs Hc) as H.
+  assert (length t = S (length s)) by (rewrite <- (rev_length t), E; reflexivity).
+  unfold depth_nodes, run. lia.
+Qed.
+
+Theorem depth_nodes_attained q : q <> [] -> wf_run [] q ->
+  exists t, subseq t q /\ chain_rel linked t /\ Z.of_nat (length t) = depth_nodes q + 1.
+Proof.
+  intros Hne W.
+  pose proof (run_inv q [] [] 0 Inv_init W) as I. rewrite app_nil_r in I.
+  destruct (invD _ _ _ I) as [H0 [Hz|[a [s [Hs [Hc Hl]]]]]].
+  - destruct q as [|n r]; [congruence|]. exists [n]. split; [apply ss_take, ss_nil|]. split; [cbn; auto|].
+    unfold depth_nodes, run. rewrite Hz. reflexivity.
+  - exists (rev (a :: s)). split; [|split].
+    + rewrite <- (rev_involutive q). apply subseq_rev; auto.
+    + apply chain_rel_rev in Hc. revert Hc. apply chain_rel_ext. intros x y H; exact H.
+    + rewrite rev_length. cbn [length]. unfold depth_nodes, run. lia.
+Qed.
+
+(* bounds that need no well-formedness *)
+Lemma run_cons F acc n r : run F acc (n :: r) = run (push (writes n) (level F n) F) (Z.max acc (level F n)) r.
+Proof. reflexivity. Qed.
+
+Lemma run_bound q : forall F acc B, 0 <= B -> (forall k v, flook F k = Some v -> v <= B) -> acc <= B ->
+  run F acc q <= B + Z.of_nat (length q).
+Proof.
+  induction q as [|n r IH]; intros F acc B HB HF Ha.
+  - unfold run; cbn. lia.
+  - rewrite run_cons. pose proof (level_le F n B HB HF) as Hl. pose proof (level_nonneg F n).
+    assert (G : run (push (writes n) (level F n) F) (Z.max acc (level F n)) r <= (B + 1) + Z.of_nat (length r)).
+    { apply IH; [lia | | lia]. intros k v Hk. rewrite flook_push in Hk.
+      destruct (existsb _ (writes n)); [inversion Hk; subst; lia | apply HF in Hk; lia]. }
+    cbn [length]. lia.
+Qed.
+
+Lemma run_st_inv q : forall F acc, (forall k v, flook F k = Some v -> v <= acc) ->
+  (forall k v, flook (fst (run_st F acc q)) k = Some v -> v <= snd (run_st F acc q)) /\ acc <= snd (run_st F acc q).
+Proof.
+  induction q as [|n r IH]; intros F acc HF; cbn [run_st fst snd]; [split; [auto|lia]|].
+  destruct (IH (push (writes n) (level F n) F) (Z.max acc (level F n))) as [H1 H2].
+  - intros k v Hk. rewrite flook_push in Hk.
+    destruct (existsb _ (writes n)); [inversion Hk; subst; lia | apply HF in Hk; lia].
+  - split; [auto|lia].
+Qed.
+
+Lemma run_st_app q n : forall F acc,
+  run_st F acc (q ++ [n]) =
+  (push (writes n) (level (fst (run_st F acc q)) n) (fst (run_st F acc q)),
+   Z.max (snd (run_st F acc q)) (level (fst (run_st F acc q)) n)).
+Proof. induction q as [|m r IH]; intros F acc; cbn [app run_st fst snd]; [reflexivity | apply IH]. Qed.
+
+Theorem depth_nodes_append q n : q <> [] ->
+  depth_nodes q <= depth_nodes (q ++ [n]) <= depth_nodes q + 1.
+Proof.
+  intros _. unfold depth_nodes, run. rewrite run_st_app. cbn [snd].
+  destruct (run_st_inv q [] 0) as [H1 H2]; [cbn; discriminate|].
+  pose proof (level_le (fst (run_st [] 0 q)) n (snd (run_st [] 0 q)) H2 H1).
+  lia.
+Qed.
+(* ================================================================== depth of a circuit *)
+Definition glinked (aw : list Z) (a b : gate) : Prop := linked (node_of aw a) (node_of aw b).
+Definition mcm_distinct (c : circuit) : Prop := NoDup (flat_map gmid (ops c)).
+Definition with_op (c : circuit) (g : gate) : circuit := mkCirc (ops c ++ [g]) (meass c) (trainable c).
+
+Lemma In_KW w l : In (KW w) (map KW l) <-> In w l.
+Proof. rewrite in_map_iff. split; [intros [x [E H]]; inversion E; subst; auto | intros H; exists w; auto]. Qed.
+Lemma In_KM m l : In (KM m) (map KM l) <-> In m l.
+Proof. rewrite in_map_iff. split; [intros [x [E H]]; inversion E; subst; auto | intros H; exists m; auto]. Qed.
+Lemma notIn_KM_KW m l : ~ In (KM m) (map KW l).
+Proof. rewrite in_map_iff. intros [x [E _]]; inversion E. Qed.
+Lemma notIn_KW_KM w l : ~ In (KW w) (map KM l).
+Proof. rewrite in_map_iff. intros [x [E _]]; inversion E. Qed.
+
+(* the readable form of the dependency relation between two operations *)
+Lemma glinked_iff aw a b :
+  glinked aw a b <-> (exists w, In w (eff aw a) /\ In w (eff aw b)) \/ (exists m, In m (gmid a) /\ In m (gcond b)).
+Proof.
+  unfold glinked, linked, node_of; cbn [uses writes]. split.
+  - intros [k [Hw Hu]]. rewrite in_app_iff in Hw, Hu.
+    destruct Hw as [Hw|Hw]; apply in_map_iff in Hw; destruct Hw as [y [E Hy]]; subst k.
+    + left. exists y. split; auto. destruct Hu as [Hu|Hu]; [apply In_KW in Hu; auto | apply notIn_KW_KM in Hu; contradiction].
+    + right. exists y. split; auto. destruct Hu as [Hu|Hu]; [apply notIn_KM_KW in Hu; contradiction | apply In_KM in Hu; auto].
+  - intros [[w [H1 H2]]|[m [H1 H2]]].
+    + exists (KW w). rewrite !in_app_iff, !In_KW. auto.
+    + exists (KM m). rewrite !in_app_iff, !In_KM. auto.
+Qed.
+
+Lemma preds_nil n : preds [] n = [].
+Proof. unfold preds. induction (uses n); cbn; auto. Qed.
+Lemma level_nil n : level [] n = 0.
+Proof. unfold level. rewrite preds_nil. reflexivity. Qed.
+
+Lemma depth_eq_queue c : depth c = depth_nodes (queue c).
+Proof.
+  unfold depth, queue. destruct (ops c) eqn:E; [|reflexivity].
+  cbn [map]. unfold depth_nodes, run. cbn [run_st snd]. rewrite level_nil. reflexivity.
+Qed.
+
+Lemma NoDup_app_inv {A} (l1 l2 : list A) : NoDup (l1 ++ l2) -> NoDup l2 /\ (forall x, In x l1 -> ~ In x l2).
+Proof.
+  induction l1 as [|a l1 IH]; cbn [app]; intros H; [split; [auto | intros x []]|].
+  inversion H as [|? ? Hn Hr]; subst. destruct (IH Hr) as [H2 H3]. split; [auto|].
+  intros x [->|Hx]; [intros Hi; apply Hn; apply in_or_app; auto | auto].
+Qed.
+
+Lemma wf_run_gates aw gs : forall F, NoDup (flat_map gmid gs) ->
+  (forall m, In m (flat_map gmid gs) -> flook F (KM m) = None) -> wf_run F (map (node_of aw) gs).
+Proof.
+  induction gs as [|g r IH]; intros F Hnd HF; cbn [map wf_run]; [auto|].
+  cbn [flat_map] in Hnd, HF. destruct (NoDup_app_inv _ _ Hnd) as [Hr Hdis]. split.
+  - intros k Hk. unfold node_of in *; cbn [writes uses] in *. rewrite in_app_iff in Hk. destruct Hk as [Hk|Hk].
+    + left. apply in_or_app; auto.
+    + right. apply in_map_iff in Hk. destruct Hk as [m [<- Hm]]. apply HF. apply in_or_app; auto.
+  - apply IH; [auto|]. intros m Hm. rewrite flook_push_notin.
+    + apply HF. apply in_or_app; auto.
+    + unfold node_of; cbn [writes]. rewrite in_app_iff. intros [H|H].
+      * apply notIn_KM_KW in H; auto.
+      * apply In_KM in H. apply (Hdis m H Hm).
+Qed.
+
+Lemma wf_queue c : mcm_distinct c -> wf_run [] (queue c).
+Proof.
+  intros H. unfold queue. cbn [wf_run]. split.
+  - intros k Hk. left. exact Hk.
+  - apply wf_run_gates; [exact H|]. intros m _. rewrite flook_push_notin; [reflexivity|].
+    unfold inode; cbn [writes]. apply notIn_KM_KW.
+Qed.
+
+Lemma depth_nonneg c : 0 <= depth c.
+Proof. rewrite depth_eq_queue. apply depth_nodes_nonneg. Qed.
+
+Lemma inode_linked c g : all_wires c <> [] -> In g (ops c) -> linked (inode (all_wires c)) (node_of (all_wires c) g).
+Proof.
+  intros Hne Hg. unfold linked, inode, node_of, eff; cbn [writes uses].
+  destruct (gwires g) as [|w ws] eqn:E.
+  - destruct (all_wires c) as [|w0 r] eqn:Ea; [congruence|]. exists (KW w0). split; [left; auto | apply in_or_app; left; left; auto].
+  - exists (KW w). split.
+    + apply In_KW. apply all_wires_spec. left. exists g. split; auto. rewrite E; left; auto.
+    + apply in_or_app; left. apply In_KW. left; auto.
+Qed.
+
+Theorem depth_ge_chain c s : mcm_distinct c -> all_wires c <> [] ->
+  subseq s (ops c) -> chain_rel (glinked (all_wires c)) s -> Z.of_nat (length s) <= depth c.
+Proof.
+  intros Hm Hne Hs Hc. destruct s as [|g0 s']; [cbn; apply depth_nonneg|].
+  rewrite depth_eq_queue.
+  pose (t := inode (all_wires c) :: map (node_of (all_wires c)) (g0 :: s')).
+  assert (G : Z.of_nat (length t) - 1 <= depth_nodes (queue c)).
+  { apply depth_nodes_ge_chain; [apply wf_queue; auto | | | discriminate].
+    - unfold t, queue. apply ss_take. apply subseq_map; auto.
+    - unfold t. cbn [map]. split.
+      + apply inode_linked; auto. apply (subseq_In _ _ Hs). left; auto.
+      + change (chain_rel linked (map (node_of (all_wires c)) (g0 :: s'))).
+        exact (proj2 (chain_rel_map (node_of (all_wires c)) linked (g0 :: s')) Hc). }
+  unfold t in G. cbn [length] in G. rewrite map_length in G. cbn [length] in *. lia.
+Qed.
+
+Theorem depth_attained_chain c : mcm_distinct c ->
+  exists s, subseq s (ops c) /\ chain_rel (glinked (all_wires c)) s /\ Z.of_nat (length s) = depth c.
+Proof.
+  intros Hm. rewrite depth_eq_queue.
+  destruct (depth_nodes_attained (queue c)) as [t [Hs [Hc Hl]]]; [unfold queue; discriminate | apply wf_queue; auto|].
+  pose proof (depth_nodes_nonneg (queue c)) as H0.
+  unfold queue in Hs. destruct t as [|n0 t']; [cbn in Hl; lia|].
+  apply subseq_cons_inv in Hs. destruct Hs as [Hs|[-> Hs]].
+  - apply subseq_map_inv in Hs. destruct Hs as [s [E Hs]].
+    destruct s as [|g s']; [discriminate|]. exists s'. split; [apply (subseq_tail g); auto|]. split.
+    + rewrite E in Hc. pose proof (proj1 (chain_rel_map (node_of (all_wires c)) linked (g :: s')) Hc) as Hc'.
+      apply chain_rel_tail in Hc'. exact Hc'.
+    + apply (f_equal (@length _)) in E. rewrite map_length in E. cbn [length] in *. lia.
+  - apply subseq_map_inv in Hs. destruct Hs as [s [E Hs]]. exists s. split; [auto|]. split.
+    + apply chain_rel_tail in Hc. rewrite E in Hc.
+      exact (proj1 (chain_rel_map (node_of (all_wires c)) linked s) Hc).
+    + rewrite E in Hl. cbn [length] in Hl. rewrite map_length in Hl. lia.
+Qed.
+
+Theorem depth_le_gates c : depth c <= Z.of_nat (length (ops c)).
+Proof.
+  rewrite depth_eq_queue. unfold queue, depth_nodes. rewrite run_cons. rewrite level_nil.
+  pose proof (run_bound (map (node_of (all_wires c)) (ops c)) (push (writes (inode (all_wires c))) 0 []) (Z.max 0 0) 0) as H.
+  rewrite map_length in H. apply H; [lia | | lia].
+  intros k v Hk. rewrite flook_push in Hk. destruct (existsb _ _); [inversion Hk; lia | discriminate].
+Qed.
+
+Theorem depth_append c g : all_wires (with_op c g) = all_wires c ->
+  depth c <= depth (with_op c g) <= depth c + 1.
+Proof.
+  intros Hw. rewrite !depth_eq_queue.
+  assert (E : queue (with_op c g) = queue c ++ [node_of (all_wires c) g]).
+  { unfold queue. rewrite Hw. unfold with_op; cbn [ops]. rewrite map_app. reflexivity. }
+  rewrite E. apply depth_nodes_append. unfold queue; discriminate.
+Qed.
+
+(* the tidy statement fails for tapes without wires, and appending an operation that brings a new wire can
+   raise the depth by more than one (wire-less operations start to act on the new wire) *)
+Definition gphase0 : gate := mkGate 1 [] 1 0 [] [].
+Definition rx0 : gate := mkGate 2 [0] 1 0 [] [].
+Lemma depth_no_wires_example :
+  let c := mkCirc [gphase0] [] None in
+  depth c = 0 /\ subseq [gphase0] (ops c) /\ chain_rel (glinked (all_wires c)) [gphase0].
+Proof. cbn. split; [vm_compute; reflexivity | split; [apply ss_take, ss_nil | auto]]. Qed.
+Lemma depth_new_wire_example :
+  let c := mkCirc [gphase0] [] None in depth c = 0 /\ depth (with_op c rx0) = 2.
+Proof. split; vm_compute; reflexivity. Qed.
+(* ================================================================== estimator Resources arithmetic *)
+Definition ekeys (l : list (Z * Z)) : list Z := map fst l.
+Definition nonneg_counts (l : list (Z * Z)) : Prop := forall k, 0 <= eget k l.
+
+Lemma efind_app k l1 l2 : efind k (l1 ++ l2) = match efind k l1 with Some v => Some v | None => efind k l2 end.
+Proof. induction l1 as [|[k1 v1] r IH]; cbn [app efind]; [reflexivity|]. destruct (k1 =? k); auto. Qed.
+Lemma efind_notin k l : ~ In k (ekeys l) -> efind k l = None.
+Proof.
+  induction l as [|[k1 v1] r IH]; cbn [efind ekeys map fst In]; [reflexivity|]. intros H.
+  destruct (k1 =? k) eqn:E; [apply Z.eqb_eq in E; subst; tauto | apply IH; tauto].
+Qed.
+Lemma efind_in k l : In k (ekeys l) -> exists v, efind k l = Some v.
+Proof.
+  induction l as [|[k1 v1] r IH]; cbn [efind ekeys map fst In]; [tauto|]. intros H.
+  destruct (k1 =? k) eqn:E; [eauto|]. apply Z.eqb_neq in E. destruct H; [congruence | auto].
+Qed.
+Lemma efind_some_in k l v : efind k l = Some v -> In (k, v) l.
+Proof.
+  induction l as [|[k1 v1] r IH]; cbn [efind]; [discriminate|].
+  destruct (k1 =? k) eqn:E; [apply Z.eqb_eq in E; intros H; inversion H; subst; left; auto | right; auto].
+Qed.
+
+Definition addf (b : list (Z * Z)) (kv : Z * Z) : list (Z * Z) :=
+  let s := snd kv + eget (fst kv) b in if 0 <? s then [(fst kv, s)] else [].
+Definition keepf (a : list (Z * Z)) (kv : Z * Z) : bool :=
+  match efind (fst kv) a with Some _ => false | None => 0 <? snd kv end.
+Lemma cnt_add_eq a b : cnt_add a b = flat_map (addf b) a ++ filter (keepf a) b.
+Proof. reflexivity. Qed.
+
+Lemma addf_keys b kv k : In k (ekeys (addf b kv)) -> k = fst kv.
+Proof. unfold addf. cbn zeta. destruct (0 <? _); cbn; [intros [H|[]]; auto | tauto]. Qed.
+Lemma addpart_keys b a k : In k (ekeys (flat_map (addf b) a)) -> In k (ekeys a).
+Proof.
+  induction a as [|kv r IH]; cbn [flat_map]; [auto|]. unfold ekeys in *. rewrite map_app, in_app_iff. cbn [map In].
+  intros [H|H]; [left; symmetry; apply (addf_keys b kv k H) | right; auto].
+Qed.
+Lemma addpart_nodup b a : NoDup (ekeys a) -> NoDup (ekeys (flat_map (addf b) a)).
+Proof.
+  induction a as [|kv r IH]; cbn [flat_map ekeys map]; [constructor|]. intros H. inversion H as [|? ? Hn Hr]; subst.
+  unfold ekeys. rewrite map_app. unfold addf at 1. cbn zeta. destruct (0 <? _); cbn [map app fst].
+  - constructor; [|apply IH; auto]. intros Hi. apply Hn. apply (addpart_keys b r _ Hi).
+  - apply IH; auto.
+Qed.
+Lemma filter_keys (g : Z * Z -> bool) b k : In k (ekeys (filter g b)) -> exists v, In (k, v) b /\ g (k, v) = true.
+Proof.
+  unfold ekeys. rewrite in_map_iff. intros [[k' v] [E H]]. cbn in E; subst. apply filter_In in H. eauto.
+Qed.
+Lemma filter_nodup (g : Z * Z -> bool) b : NoDup (ekeys b) -> NoDup (ekeys (filter g b)).
+Proof.
+  induction b as [|kv r IH]; cbn [filter ekeys map]; [constructor|]. intros H. inversion H as [|? ? Hn Hr]; subst.
+  destruct (g kv); cbn [ekeys map]; [|apply IH; auto]. constructor; [|apply IH; auto].
+  intros Hi. apply Hn. destruct kv as [k0 v0]. apply filter_keys in Hi. destruct Hi as [v [Hi _]].
+  cbn [fst]. apply in_map_iff. exists (k0, v); auto.
+Qed.
+Lemma NoDup_app_intro {A} (l1 l2 : list A) : NoDup l1 -> NoDup l2 -> (forall x, In x l1 -> ~ In x l2) -> NoDup (l1 ++ l2).
+Proof.
+  induction l1 as [|a l1 IH]; cbn [app]; intros H1 H2 H; [auto|]. inversion H1; subst.
+  constructor; [|apply IH; auto; intros; apply H; right; auto].
+  rewrite in_app_iff. intros [Hi|Hi]; [auto | apply (H a); [left|]; auto].
+Qed.
+
+Lemma cnt_add_nodup a b : NoDup (ekeys a) -> NoDup (ekeys b) -> NoDup (ekeys (cnt_add a b)).
+Proof.
+  intros Ha Hb. rewrite cnt_add_eq. unfold ekeys. rewrite map_app.
+  apply NoDup_app_intro; [apply addpart_nodup; auto | apply filter_nodup; auto|].
+  intros k H1 H2. apply addpart_keys in H1. apply efind_in in H1. destruct H1 as [v Hv].
+  apply filter_keys in H2. destruct H2 as [v' [_ Hg]]. unfold keepf in Hg. cbn [fst] in Hg. rewrite Hv in Hg. discriminate.
+Qed.
+
+Lemma efind_addpart k a b : NoDup (ekeys a) ->
+  efind k (flat_map (addf b) a) =
+  match efind k a with Some v => if 0 <? v + eget k b then Some (v + eget k b) else None | None => None end.
+Proof.
+  induction a as [|[k1 v1] r IH]; cbn [flat_map efind]; [reflexivity|]. intros H. inversion H as [|? ? Hn Hr]; subst.
+  rewrite efind_app. unfold addf at 1. cbn [fst snd]. cbn zeta. destruct (k1 =? k) eqn:E.
+  - apply Z.eqb_eq in E; subst k1. destruct (0 <? v1 + eget k b); cbn [efind].
+    + rewrite Z.eqb_refl. reflexivity.
+    + rewrite IH; auto. rewrite (efind_notin k r); auto.
+  - destruct (0 <? v1 + eget k1 b); cbn [efind]; [rewrite E|]; apply IH; auto.
+Qed.
+Lemma efind_filter k (g : Z * Z -> bool) b : NoDup (ekeys b) ->
+  efind k (filter g b) = match efind k b with Some v => if g (k, v) then Some v else None | None => None end.
+Proof.
+  induction b as [|[k1 v1] r IH]; cbn [filter efind]; [reflexivity|]. intros H. inversion H as [|? ? Hn Hr]; subst.
+  destruct (k1 =? k) eqn:E.
+  - apply Z.eqb_eq in E; subst k1. destruct (g (k, v1)); cbn [efind].
+    + rewrite Z.eqb_refl; reflexivity.
+    + rewrite IH; auto. rewrite (efind_notin k r); auto.
+  - destruct (g (k1, v1)); cbn [efind]; [rewrite E|]; apply IH; auto.
+Qed.
+
+(* Counter addition, pointwise: the sum, clamped at 0 *)
+Theorem eget_cnt_add k a b : NoDup (ekeys a) -> NoDup (ekeys b) ->
+  eget k (cnt_add a b) = (if 0 <? eget k a + eget k b then eget k a + eget k b else 0).
+Proof.
+  intros Ha Hb. rewrite cnt_add_eq. unfold eget at 1. rewrite efind_app, efind_addpart, efind_filter; auto.
+  unfold keepf. cbn [fst snd].
+  pose proof (eq_refl : eget k a = match efind k a with Some v => v | None => 0 end) as Hga.
+  pose proof (eq_refl : eget k b = match efind k b with Some v => v | None => 0 end) as Hgb.
+  destruct (efind k a) as [va|] eqn:Ea; rewrite Hga.
+  - destruct (0 <? va + eget k b); [reflexivity|]. destruct (efind k b); reflexivity.
+  - rewrite Hgb. destruct (efind k b) as [vb|]; [|reflexivity]. cbn [Z.add]. destruct (0 <? vb); reflexivity.
+Qed.
+
+Corollary eget_cnt_add_nonneg k a b : NoDup (ekeys a) -> NoDup (ekeys b) -> 0 <= eget k a -> 0 <= eget k b ->
+  eget k (cnt_add a b) = eget k a + eget k b.
+Proof.
+  intros Ha Hb H1 H2. rewrite eget_cnt_add; auto. destruct (0 <? eget k a + eget k b) eqn:E; [reflexivity|].
+  apply Z.ltb_ge in E. lia.
+Qed.
+
+Lemma eget_scale k n l : eget k (scale_gt n l) = eget k l * n.
+Proof.
+  unfold eget, scale_gt. induction l as [|[k1 v1] r IH]; cbn [map efind fst snd]; [reflexivity|].
+  destruct (k1 =? k); auto.
+Qed.
+Lemma scale_keys n l : ekeys (scale_gt n l) = ekeys l.
+Proof. unfold ekeys, scale_gt. rewrite map_map. reflexivity. Qed.
+
+Lemma rep_series_spec x : NoDup (ekeys (egt x)) -> nonneg_counts (egt x) -> forall n,
+  NoDup (ekeys (egt (rep_series x n))) /\
+  (forall k, eget k (egt (rep_series x n)) = eget k (egt x) * (Z.of_nat n + 1)) /\
+  ez (rep_series x n) = ez x /\ ea (rep_series x n) = ea x * (Z.of_nat n + 1) /\ el (rep_series x n) = el x.
+Proof.
+  intros Hd Hn. induction n as [|n [I1 [I2 [I3 [I4 I5]]]]]; cbn [rep_series].
+  - repeat split; auto; intros; cbn; lia.
+  - unfold add_series; cbn [egt ez ea el]. split; [apply cnt_add_nodup; auto|]. split; [|split; [|split]].
+    + intros k. rewrite eget_cnt_add_nonneg; auto; [rewrite I2; nia | rewrite I2; specialize (Hn k); nia].
+    + rewrite I3. apply Z.max_id.
+    + rewrite I4. nia.
+    + rewrite I5. apply Z.max_id.
+Qed.
+Lemma rep_parallel_spec x : NoDup (ekeys (egt x)) -> nonneg_counts (egt x) -> forall n,
+  NoDup (ekeys (egt (rep_parallel x n))) /\
+  (forall k, eget k (egt (rep_parallel x n)) = eget k (egt x) * (Z.of_nat n + 1)) /\
+  ez (rep_parallel x n) = ez x /\ ea (rep_parallel x n) = ea x * (Z.of_nat n + 1) /\
+  el (rep_parallel x n) = el x * (Z.of_nat n + 1).
+Proof.
+  intros Hd Hn. induction n as [|n [I1 [I2 [I3 [I4 I5]]]]]; cbn [rep_parallel].
+  - repeat split; auto; intros; cbn; lia.
+  - unfold add_parallel; cbn [egt ez ea el]. split; [apply cnt_add_nodup; auto|]. split; [|split; [|split]].
+    + intros k. rewrite eget_cnt_add_nonneg; auto; [rewrite I2; nia | rewrite I2; specialize (Hn k); nia].
+    + rewrite I3. apply Z.max_id.
+    + rewrite I4. nia.
+    + rewrite I5. nia.
+Qed.
+
+(* observational equality of Resources: same wire fields, same count for every gate key *)
+Definition eres_eq (x y : eres) : Prop :=
+  ez x = ez y /\ ea x = ea y /\ el x = el y /\ forall k, eget k (egt x) = eget k (egt y).
+
+Theorem mul_series_is_repeated_add x n : NoDup (ekeys (egt x)) -> nonneg_counts (egt x) ->
+  eres_eq (mul_series x (Z.of_nat n + 1)) (rep_series x n).
+Proof.
+  intros Hd Hn. destruct (rep_series_spec x Hd Hn n) as [_ [I2 [I3 [I4 I5]]]].
+  unfold eres_eq, mul_series; cbn [ez ea el egt]. repeat split; auto. intros k. rewrite eget_scale, I2. reflexivity.
+Qed.
+Theorem mul_parallel_is_repeated_add x n : NoDup (ekeys (egt x)) -> nonneg_counts (egt x) ->
+  eres_eq (mul_parallel x (Z.of_nat n + 1)) (rep_parallel x n).
+Proof.
+  intros Hd Hn. destruct (rep_parallel_spec x Hd Hn n) as [_ [I2 [I3 [I4 I5]]]].
+  unfold eres_eq, mul_parallel; cbn [ez ea el egt]. repeat split; auto. intros k. rewrite eget_scale, I2. reflexivity.
+Qed.
+
+Theorem add_series_comm x y : NoDup (ekeys (egt x)) -> NoDup (ekeys (egt y)) ->
+  eres_eq (add_series x y) (add_series y x).
+Proof.
+  intros Hx Hy. unfold eres_eq, add_series; cbn [ez ea el egt]. repeat split; try lia.
+  intros k. rewrite !eget_cnt_add; auto. rewrite (Z.add_comm (eget k (egt y))). reflexivity.
+Qed.
+Theorem add_parallel_comm x y : NoDup (ekeys (egt x)) -> NoDup (ekeys (egt y)) ->
+  eres_eq (add_parallel x y) (add_parallel y x).
+Proof.
+  intros Hx Hy. unfold eres_eq, add_parallel; cbn [ez ea el egt]. repeat split; try lia.
+  intros k. rewrite !eget_cnt_add; auto. rewrite (Z.add_comm (eget k (egt y))). reflexivity.
+Qed.
+Theorem add_series_assoc x y z : NoDup (ekeys (egt x)) -> NoDup (ekeys (egt y)) -> NoDup (ekeys (egt z)) ->
+  nonneg_counts (egt x) -> nonneg_counts (egt y) -> nonneg_counts (egt z) ->
+  eres_eq (add_series (add_series x y) z) (add_series x (add_series y z)).
+Proof.
+  intros Hx Hy Hz Nx Ny Nz. unfold eres_eq, add_series; cbn [ez ea el egt]. repeat split; try lia.
+  intros k. specialize (Nx k); specialize (Ny k); specialize (Nz k).
+  rewrite (eget_cnt_add_nonneg k (cnt_add (egt x) (egt y))); auto using cnt_add_nodup;
+    [|rewrite eget_cnt_add_nonneg; auto; lia].
+  rewrite (eget_cnt_add_nonneg k (egt x) (cnt_add (egt y) (egt z))); auto using cnt_add_nodup;
+    [|rewrite eget_cnt_add_nonneg; auto; lia].
+  rewrite !eget_cnt_add_nonneg; auto. lia.
+Qed.
+
+(* ================================================================== Expression arithmetic *)
+Lemma monob_eq a : forall b, monob a b = true <-> a = b.
+Proof.
+  induction a as [|x r IH]; intros [|y s]; cbn [monob]; try (split; [discriminate|congruence]); [tauto|].
+  rewrite andb_true_iff, Z.eqb_eq, IH. split; [intros [-> ->]; reflexivity | intros H; inversion H; auto].
+Qed.
+Lemma xeval_cons rho m v e : xeval rho ((m, v) :: e) = v * meval rho m + xeval rho e.
+Proof. reflexivity. Qed.
+
+Lemma xeval_xset rho m v e : xeval rho (xset m v e) = xeval rho e + (v - xget m e) * meval rho m.
+Proof.
+  unfold xget. induction e as [|[m' v'] r IH]; cbn [xset xfind].
+  - rewrite xeval_cons. cbn. lia.
+  - destruct (monob m' m) eqn:E.
+    + apply monob_eq in E; subst. rewrite !xeval_cons. lia.
+    + rewrite !xeval_cons, IH. lia.
+Qed.
+Lemma xeval_xdel rho m e : xeval rho (xdel m e) = xeval rho e - xget m e * meval rho m.
+Proof.
+  unfold xget. induction e as [|[m' v'] r IH]; cbn [xdel xfind].
+  - cbn. lia.
+  - destruct (monob m' m) eqn:E.
+    + apply monob_eq in E; subst. rewrite !xeval_cons. lia.
+    + rewrite !xeval_cons, IH. lia.
+Qed.
+Lemma xeval_xnorm rho e : xeval rho (xnorm e) = xeval rho e.
+Proof.
+  unfold xnorm. induction e as [|[m v] r IH]; cbn [filter snd]; [reflexivity|].
+  destruct (v =? 0) eqn:E; cbn [negb]; rewrite ?xeval_cons, IH; [apply Z.eqb_eq in E; subst; lia | reflexivity].
+Qed.
+Lemma reval_cast rho e : reval rho (cast e) = xeval rho e.
+Proof.
+  destruct e as [|[m v] r]; [reflexivity|]. destruct m as [|x m']; [|reflexivity].
+  destruct r; [|reflexivity]. cbn. lia.
+Qed.
+Lemma reval_cast_norm rho e : reval rho (cast_norm e) = xeval rho e.
+Proof.
+  destruct e as [|[m v] r]; [reflexivity|]. destruct m as [|x m'].
+  - destruct r; [cbn; lia|]. cbn [cast_norm reval]. apply xeval_xnorm.
+  - cbn [cast_norm reval]. apply xeval_xnorm.
+Qed.
+
+Theorem xadd_int_eval rho e z : reval rho (xadd_int e z) = xeval rho e + z.
+Proof. unfold xadd_int. rewrite reval_cast_norm, xeval_xset. cbn [meval fold_right]. lia. Qed.
+
+Theorem xadd_eval rho a b : reval rho (xadd a b) = xeval rho a + xeval rho b.
+Proof.
+  unfold xadd. rewrite reval_cast_norm. revert a.
+  induction b as [|[m v] r IH]; intros a; cbn [fold_left fst snd]; [cbn; lia|].
+  rewrite IH. rewrite xeval_cons. destruct (xget m a + v =? 0) eqn:E.
+  - apply Z.eqb_eq in E. rewrite xeval_xdel. nia.
+  - rewrite xeval_xset. nia.
+Qed.
+
+Theorem xmul_int_eval rho e z : reval rho (xmul_int e z) = z * xeval rho e.
+Proof.
+  unfold xmul_int. destruct (z =? 0) eqn:E; [apply Z.eqb_eq in E; subst; cbn; lia|].
+  rewrite reval_cast. induction e as [|[m v] r IH]; cbn [map fst snd]; [cbn; lia|].
+  rewrite !xeval_cons, IH. nia.
+Qed.
+
+Lemma radd_eval rho a b : reval rho (radd a b) = reval rho a + reval rho b.
+Proof.
+  destruct a as [x|e], b as [y|f]; cbn [radd]; [reflexivity | | |].
+  - rewrite xadd_int_eval. cbn [reval]. lia.
+  - rewrite xadd_int_eval. cbn [reval]. lia.
+  - apply xadd_eval.
+Qed.
+
+(* total_quantum_operations = sum(counts.values()): evaluating the symbolic total gives the sum of the evaluated counts *)
+Theorem total_eval rho l :
+  reval rho (fold_left radd l (XInt 0)) = fold_right (fun r a => reval rho r + a) 0 l.
+Proof.
+  assert (G : forall acc, reval rho (fold_left radd l acc) = reval rho acc + fold_right (fun r a => reval rho r + a) 0 l).
+  { induction l as [|r l IH]; intros acc; cbn [fold_left fold_right]; [lia|]. rewrite IH, radd_eval. lia. }
+  rewrite G. cbn. lia.
+Qed.
+
+(* ================================================================== packaged statements used by Props/C46.v *)
+Lemma gate_counts_sum c :
+  ctotal (gate_counts c) = Z.of_nat (length (ops c)) /\ ctotal (size_counts c) = Z.of_nat (length (ops c)).
+Proof. split; apply count_total. Qed.
+
+Lemma gate_counts_keys c :
+  NoDup (map fst (gate_counts c)) /\ forall k, In k (map fst (gate_counts c)) <-> exists g, In g (ops c) /\ gkey g = k.
+Proof. split; [apply count_keys_nodup | intros k; apply count_keys_spec]. Qed.
+
+Lemma num_wires_spec c :
+  num_wires c = Z.of_nat (length (all_wires c)) /\ NoDup (all_wires c) /\
+  forall w, In w (all_wires c) <->
+            (exists g, In g (ops c) /\ In w (gwires g)) \/ (exists m, In m (meass c) /\ In w (mwires m)).
+Proof. split; [reflexivity|]. split; [apply all_wires_nodup | intros w; apply all_wires_spec]. Qed.
+
+Lemma depth_longest_chain c : mcm_distinct c -> all_wires c <> [] ->
+  (forall s, subseq s (ops c) -> chain_rel (glinked (all_wires c)) s -> Z.of_nat (length s) <= depth c) /\
+  (exists s, subseq s (ops c) /\ chain_rel (glinked (all_wires c)) s /\ Z.of_nat (length s) = depth c).
+Proof. intros Hm Hw. split; [intros s; apply depth_ge_chain; auto | apply depth_attained_chain; auto]. Qed.
+
+Lemma add_fields x y :
+  ez (add_series x y) = Z.max (ez x) (ez y) /\ ea (add_series x y) = ea x + ea y /\ el (add_series x y) = Z.max (el x) (el y) /\
+  ez (add_parallel x y) = Z.max (ez x) (ez y) /\ ea (add_parallel x y) = ea x + ea y /\ el (add_parallel x y) = el x + el y /\
+  egt (add_parallel x y) = egt (add_series x y).
+Proof. repeat split. Qed.
+
+Lemma add_counts x y k : NoDup (ekeys (egt x)) -> NoDup (ekeys (egt y)) ->
+  eget k (egt (add_series x y)) = (if 0 <? eget k (egt x) + eget k (egt y) then eget k (egt x) + eget k (egt y) else 0) /\
+  (0 <= eget k (egt x) -> 0 <= eget k (egt y) -> eget k (egt (add_series x y)) = eget k (egt x) + eget k (egt y)).
+Proof. intros Hx Hy. split; [apply eget_cnt_add; auto | intros; apply eget_cnt_add_nonneg; auto]. Qed.
+
+Lemma total_wires_parallel x y : 0 <= ez x -> 0 <= ez y -> 0 <= el x -> 0 <= el y ->
+  total_wires (add_series x y) <= total_wires (add_parallel x y) <= total_wires x + total_wires y.
+Proof. unfold total_wires, add_series, add_parallel; cbn [ez ea el]. lia. Qed.
